@@ -15,9 +15,16 @@
    did (where files landed, package clause, struct names, which template rendered, probe dump of file- and
    interface-level template-data, schema validation outcome, formatting, overwrite, which interfaces and
    packages were mocked, which log lines appeared) and compares.
-3. The hook trace of every base run (Select / Resolved / Collect / Stage / Exists) is validated by TLC
-   against spec/ConfigTreeTrace.tla, where the expected value of every logged field is computed from the
-   world's tree by the same Effective operator.
+   Situations that abort a run (existing file with force-file-write=false, template-data the schema rejects)
+   get one run each ("focus runs").  The four env x flag combinations naming a config file
+   (spec/ConfigSources.tla) are replayed the same way.
+3. The hook traces of the base runs (Select / Resolved / Collect / Stage / Exists / Inject / Exclude; a seeded
+   sample of 130 runs in the quick tier, 2000 in the thorough tier) are validated by TLC against
+   spec/ConfigTreeTrace.tla, where the expected value of every logged field is computed from the world's tree
+   by the same Effective operator; the check corrupts one field / drops one event of an accepted trace and
+   requires the specification to reject it.
+
+Environment knobs for development only: C08_ONLY=<param,...>, C08_LIMIT=<n>, C08_DEBUG=<file>, C08_JOBS=<n>.
 """
 import concurrent.futures as cf
 import itertools
